@@ -5571,48 +5571,19 @@ namespace awkward {
       parents.length());
     util::handle_error(err2, classname(), nullptr);
 
-    if (stable) {
-      struct Error err3 = kernel::NumpyArray_sort<T>(
-        kernel::lib::cpu,   // DERIVE
-        ptr.get(),
-        data,
-        length,
-        offsets.data(),
-        offsets_length,
-        parents.length(),
-        ascending,
-        stable);
-      util::handle_error(err3, classname(), nullptr);
-    }
-    else {
-      std::shared_ptr<int64_t> tmp_beg_ptr = kernel::malloc<int64_t>(kernel::lib::cpu,   // DERIVE
-                                                                     kMaxLevels*((int64_t)sizeof(int64_t)));
-      std::shared_ptr<int64_t> tmp_end_ptr = kernel::malloc<int64_t>(kernel::lib::cpu,   // DERIVE
-                                                                     kMaxLevels*((int64_t)sizeof(int64_t)));
-
-      struct Error err3 = kernel::NumpyArray_fill(
-        kernel::lib::cpu,   // DERIVE
-        ptr.get(),
-        0,
-        data,
-        length);
-      util::handle_error(err3, classname(), nullptr);
-
-      Index64 sort_starts = util::make_starts(offsets);
-      Index64 sort_stops = util::make_stops(offsets);
-
-      struct Error err4 = kernel::NumpyArray_quick_sort<T>(
-        kernel::lib::cpu,   // DERIVE
-        ptr.get(),
-        tmp_beg_ptr.get(),
-        tmp_end_ptr.get(),
-        sort_starts.data(),
-        sort_stops.data(),
-        ascending,
-        sort_starts.length(),
-        kMaxLevels);
-      util::handle_error(err4, classname(), nullptr);
-    }
+    // the NaN-aware comparison lives in NumpyArray_sort for both the stable and
+    // the unstable algorithm
+    struct Error err3 = kernel::NumpyArray_sort<T>(
+      kernel::lib::cpu,   // DERIVE
+      ptr.get(),
+      data,
+      length,
+      offsets.data(),
+      offsets_length,
+      parents.length(),
+      ascending,
+      stable);
+    util::handle_error(err3, classname(), nullptr);
 
     return ptr;
   }
